@@ -298,6 +298,14 @@ func Run(c *hx.Ctx) {
 		runScript(c, b, strings.Split(c.Args[1], ","))
 		return
 	}
+	if len(c.Args) == 1 && c.Args[0] == "h1b" { // only the HTTP/1 buffer-recycling kind
+		h1bCases(c)
+		return
+	}
+	if len(c.Args) == 1 && c.Args[0] == "h2w" { // only the HTTP/2 header-block write-order kind
+		h2wCases(c)
+		return
+	}
 	if len(c.Args) >= 1 && c.Args[0] == "e2e" { // only the end-to-end kind (4 args: one given plan)
 		runE2E(c, hx.NewRng(c.Seed^0xe2e0e2e))
 		return
@@ -385,4 +393,8 @@ func Run(c *hx.Ctx) {
 	}
 	// 4. end to end through the real proxy core (e2e.go)
 	runE2E(c, hx.NewRng(c.Seed^0xe2e0e2e))
+	// 5. HTTP/1 per-request buffers recycled through the pool (h1b.go)
+	h1bCases(c)
+	// 6. HTTP/2 header blocks of concurrent writers on one connection, decoded in wire order (h2w.go)
+	h2wCases(c)
 }
